@@ -193,6 +193,14 @@ def CRes.bind (r : CRes) (f : ChanState → CRes) : CRes :=
   | none => f r.c
   | some _ => r
 
+/-- The unadjusted retarget time of `add_target` at time `ti`:
+`np.clip(retarget - elapsed, 0, retarget)`, raised to `fixed_retarget_t` when that is set. -/
+def retargetDelta (c : ChanState) (ti : Int) : Int :=
+  let retarget : Int := c.cfg.minRetarget
+  let elapsed := ti - c.lastTarget
+  let delta0 : Int := min (max (retarget - elapsed) 0) retarget
+  if c.cfg.fixedRetarget ≠ 0 then max delta0 c.cfg.fixedRetarget else delta0
+
 /-- `self[channel][-1].targets == qubits_set`. -/
 def sameTargets (c : ChanState) (qs : List Nat) : Bool :=
   match c.slots.getLast? with
@@ -211,19 +219,18 @@ def addTarget (maxSeq : Option Nat) (c : ChanState) (qs : List Nat) : CRes :=
     ⟨c, none⟩
   else
     (CRes.lift c (waitForFall maxSeq c)).bind fun c =>
-      CRes.lift c (do
-        let last ← c.last
-        let ti := last.tf
-        let retarget : Int := c.cfg.minRetarget
-        let elapsed := ti - c.lastTarget
-        -- np.clip(retarget - elapsed, 0, retarget)
-        let delta0 : Int := min (max (retarget - elapsed) 0) retarget
-        let delta1 : Int :=
-          if c.cfg.fixedRetarget ≠ 0 then max delta0 c.cfg.fixedRetarget else delta0
-        let delta ← if delta1 ≠ 0 then c.adjust delta1.toNat else pure 0
-        let tf := ti + delta
-        checkDuration maxSeq tf
-        .ok { c with slots := c.slots ++ [⟨.target, ti, tf, qs⟩] })
+      CRes.lift c (
+        match c.last with
+        | .error e => .error e
+        | .ok last =>
+          let delta1 := retargetDelta c last.tf
+          match (if delta1 ≠ 0 then c.adjust delta1.toNat else .ok 0) with
+          | .error e => .error e
+          | .ok delta =>
+            match checkDuration maxSeq (last.tf + (delta : Int)) with
+            | .error e => .error e
+            | .ok _ =>
+              .ok { c with slots := c.slots ++ [⟨.target, last.tf, last.tf + (delta : Int), qs⟩] })
 
 /-- Inner loop of `_find_add_delay` over the reversed slots of one other channel. -/
 def findAddDelayChan (rise2 : Nat) (inEom : Bool) (myTargets : List Nat) (waitAll : Bool)
@@ -255,38 +262,55 @@ def Drift.calc (d : Drift) (tf : Int) : Rat := d.rate * (tf - d.ti) / 1000
 
 def maxList (x : Int) (l : List Int) : Int := l.foldl max x
 
+/-- `current_max_t` of `make_next_pulse_slot`: the channel end and the phase-shift
+barriers, pushed back by `_find_add_delay` unless the protocol is 'no-delay'. -/
+def curMaxOf (others : List ChanState) (last : Slot) (barriers : List Int) (proto : Protocol) : Int :=
+  if proto ≠ .noDelay then
+    findAddDelay others last.targets (proto == .waitForAll) (maxList last.tf barriers)
+  else maxList last.tf barriers
+
+/-- `phase_jump_buffer` of `make_next_pulse_slot`: when the phase differs from the last
+(non detuned-delay) pulse's, the phase-jump time (at least twice the rise time in EOM
+mode) plus that pulse's fall time, minus the time already elapsed since it ended. -/
+def phaseJumpBuffer (c : ChanState) (t0 : Int) (newPhase : Rat) (proto : Protocol) : Int :=
+  if proto ≠ .noDelay then
+    match c.lastPulseSlot true with
+    | some (ls, lp) =>
+      if lp.phase ≠ newPhase then
+        ((max c.cfg.pjt (if c.inEomMode then 2 * c.cfg.rise else 0) : Nat) : Int)
+          + (lp.fall c.inEomMode : Nat) - (t0 - ls.tf)
+      else 0
+    | none => 0
+  else 0
+
+/-- The phase of the pulse, corrected for the drift accumulated until `tf` when requested. -/
+def correctedPhase (p : PulseRec) (drift : Option Drift) (tf : Int) : Rat :=
+  match drift with
+  | some d => p.phase - d.calc tf
+  | none => p.phase
+
 /-- `_Schedule.make_next_pulse_slot`; returns the slot (with the possibly
 drift-corrected pulse).  `blockOverMax = false` only warns. -/
 def makeNextPulseSlot (maxSeq : Option Nat) (c : ChanState) (others : List ChanState)
     (p : PulseRec) (barriers : List Int) (proto : Protocol) (drift : Option Drift)
-    (blockOverMax : Bool) : Except Err Slot := do
-  let corrected (tf : Int) : Rat :=
-    match drift with
-    | some d => p.phase - d.calc tf
-    | none => p.phase
-  let last ← c.last
+    (blockOverMax : Bool) : Except Err Slot :=
+  match c.last with
+  | .error e => .error e
+  | .ok last =>
   let t0 := last.tf
-  let curMax0 := maxList t0 barriers
-  let (curMax, buffer) : Int × Int :=
-    if proto ≠ .noDelay then
-      let cm := findAddDelay others last.targets (proto == .waitForAll) curMax0
-      match c.lastPulseSlot true with
-      | some (ls, lp) =>
-        if lp.phase ≠ fmtPhase (corrected cm) then
-          let inEom := c.inEomMode
-          let b : Int := (max c.cfg.pjt (if inEom then 2 * c.cfg.rise else 0) : Nat)
-                          + (lp.fall inEom : Nat) - (t0 - ls.tf)
-          (cm, b)
-        else (cm, 0)
-      | none => (cm, 0)
-    else (curMax0, 0)
+  let curMax := curMaxOf others last barriers proto
+  let buffer := phaseJumpBuffer c t0 (fmtPhase (correctedPhase p drift curMax)) proto
   let delay0 := max (curMax - t0) buffer
-  let delay ← if delay0 > 0 then (do let d ← c.adjust delay0.toNat; pure (d : Int)) else pure delay0
-  let ti := t0 + delay
+  match (if delay0 > 0 then c.adjust delay0.toNat else .ok 0) with
+  | .error e => .error e
+  | .ok delay =>
+  let ti := t0 + (delay : Int)
   let tf := ti + p.dur
-  if blockOverMax then checkDuration maxSeq tf
-  let p' := match drift with
-    | some _ => { p with phase := fmtPhase (corrected ti) }
+  match (if blockOverMax then checkDuration maxSeq tf else .ok ()) with
+  | .error e => .error e
+  | .ok _ =>
+  let p' : PulseRec := match drift with
+    | some _ => { p with phase := fmtPhase (correctedPhase p drift ti) }
     | none => p
   .ok ⟨.pulse { p' with proto := proto }, ti, tf, last.targets⟩
 
